@@ -40,97 +40,333 @@ def run(repo: Repo, rep, tier: str):
 
 # ------------------------------------------------------------------------------------ R4 / R5
 def delivered_value(repo: Repo, rep, P: str, mc):
-    """The value written to a ranged target is converted + vt.min with the destination window [0, max − min]."""
-    from .. import alg
+    """The value written to a ranged target is converted + vt.min with the destination window [0, max − min]; a reversed source
+    window (min > max) swaps source and destination bounds together.  Every path of on_value_changed to the delivery is replayed
+    with the locals as polynomials over mapping.min/max and the target type's min/max."""
+    from .. import alg, inline
     rel = mc.file.rel
-    fn = mc.methods["on_value_changed"]
+    fn0 = mc.methods["on_value_changed"]
     con = f"{rel}:MultiCtl.on_value_changed"
-    defs = {}
-    for n in ast.walk(fn):
-        if isinstance(n, ast.Assign) and len(n.targets) == 1 and isinstance(n.targets[0], ast.Name):
-            defs[n.targets[0].id] = n.value
-    sets = [c for c in ast.walk(fn) if isinstance(c, ast.Call) and norm(c.func) == "setattr" and len(c.args) == 3]
-    if not sets:
-        rep.inconclusive(f"{P}.R4", con, "", "no setattr on the target", f"{rel}:{fn.lineno}")
+    fn = inline.split_ifexp_assigns(inline.normalize(repo, mc, fn0))
+    g = CFG(fn)
+    deliveries = [n for n in g.nodes if n.kind == "stmt" and n.ast is not None and
+                  any(isinstance(c, ast.Call) and norm(c.func) == "setattr" and len(c.args) == 3 for c in ast.walk(n.ast))]
+    if len(deliveries) != 1:
+        rep.inconclusive(f"{P}.R4", con, "", f"{len(deliveries)} setattr deliveries on the target", f"{rel}:{fn0.lineno}")
         return
-    val = sets[0].args[2]
-    while isinstance(val, ast.Name) and val.id in defs and val.id != "converted":
-        val = defs[val.id]
+    dnode = deliveries[0]
+    paths = g.paths(g.entry, [dnode.id], max_visits=1, limit=4000, labels_excluded=("exc",))
+    if not paths:
+        rep.inconclusive(f"{P}.R4", con, "", "no path to the delivery / too many paths", f"{rel}:{fn0.lineno}")
+        return
 
-    def leaf(e):
-        if isinstance(e, ast.Name) and e.id == "converted":
-            return alg.Poly.sym("c")
-        if norm(e) == "vt.min":
-            return alg.Poly.sym("min")
-        return None
-    try:
-        p = alg.to_poly(val, leaf)
-        good = p == alg.Poly.sym("c") + alg.Poly.sym("min")
-    except alg.NotAlgebraic:
-        good = False
-    if good:
-        rep.ok(f"{P}.R4", con, f"final value = {norm(val)}", "converted ∈ [0, max − min] is re-offset by the target's minimum for every range kind")
-    else:
-        rep.violation(f"{P}.R4", con, f"final value = {norm(val)}",
+    class Undecided(Exception):
+        pass
+    results = []          # (reversed?, smin, smax, dmin, dmax, delivered − CONV, type text)
+    for path in paths:
+        alias: Dict[str, ast.expr] = {}
+        env: Dict[str, alg.Poly] = {}
+        flags: Dict[str, Tuple[alg.Poly, str]] = {}
+        conv_args: List[List[alg.Poly]] = []
+        reversed_fact: Optional[bool] = None
+        infeasible = False
+
+        def canon(e: ast.expr) -> str:
+            class S(ast.NodeTransformer):
+                def visit_Name(self, node):
+                    if node.id in alias:
+                        return self.visit(ast.parse(norm(alias[node.id]), mode="eval").body)
+                    return node
+            return norm(S().visit(ast.parse(norm(e), mode="eval").body))
+
+        def leaf(e):
+            if isinstance(e, ast.Name) and e.id in env:
+                return env[e.id]
+            if isinstance(e, ast.Attribute) and e.attr in ("min", "max"):
+                return alg.Poly.sym(f"{e.attr}<{canon(e.value)}>")
+            if isinstance(e, ast.Call) and norm(e.func).split(".")[-1] == "convert_value":
+                got = []
+                for a in e.args[:6]:
+                    try:
+                        got.append(alg.to_poly(a, leaf))
+                    except alg.NotAlgebraic:
+                        got.append(alg.Poly.sym(f"opaque<{canon(a)}>"))
+                conv_args.append(got)
+                return alg.Poly.sym("CONV")
+            return None
+
+        def compare(t: ast.expr):
+            """(left − right, op name) for a two-sided ordering test, None otherwise."""
+            if isinstance(t, ast.Compare) and len(t.ops) == 1 and isinstance(t.ops[0], (ast.Gt, ast.Lt, ast.GtE, ast.LtE)):
+                try:
+                    return alg.to_poly(t.left, leaf) - alg.to_poly(t.comparators[0], leaf), type(t.ops[0]).__name__
+                except alg.NotAlgebraic:
+                    return None
+            return None
+
+        def assign(t, v):
+            if isinstance(t, ast.Name):
+                env.pop(t.id, None)
+                alias.pop(t.id, None)
+                flags.pop(t.id, None)
+                c = compare(v)
+                if c is not None:
+                    flags[t.id] = c
+                    return
+                try:
+                    env[t.id] = alg.to_poly(v, leaf)
+                except alg.NotAlgebraic:
+                    alias[t.id] = ast.parse(canon(v), mode="eval").body
+        delivered = None
+        for nid, lab in path + [(dnode.id, "")]:
+            n = g.nodes[nid]
+            if n.kind == "test":
+                t = n.ast
+                neg = False
+                while isinstance(t, ast.UnaryOp) and isinstance(t.op, ast.Not):
+                    t, neg = t.operand, not neg
+                c = flags.get(t.id) if isinstance(t, ast.Name) else compare(t)
+                if c is not None:
+                    d, op = c
+                    mm = [x for x in d.symbols() if x.startswith(("min<", "max<"))]
+                    # a test between the two bounds of the source window: min<M> − max<M> with op Gt  ⇔ reversed
+                    if len(mm) == 2 and d.is_const() is False:
+                        smin_sym = next((x for x in mm if x.startswith("min<")), None)
+                        smax_sym = next((x for x in mm if x.startswith("max<")), None)
+                        if smin_sym and smax_sym and smin_sym[4:] == smax_sym[4:] and "value_type" not in smin_sym:
+                            if d == alg.Poly.sym(smin_sym) - alg.Poly.sym(smax_sym):
+                                holds = {"Gt": True, "GtE": None, "Lt": False, "LtE": False}[op]
+                            elif d == alg.Poly.sym(smax_sym) - alg.Poly.sym(smin_sym):
+                                holds = {"Lt": True, "LtE": None, "Gt": False, "GtE": False}[op]
+                            else:
+                                holds = None
+                            if holds is not None:
+                                truth = (lab == "true") != neg
+                                now = truth if holds else (not truth)
+                                if reversed_fact is not None and reversed_fact != now:
+                                    infeasible = True          # the same orientation test answered both ways
+                                reversed_fact = now
+                continue
+            if n.kind != "stmt" or n.ast is None:
+                continue
+            st = n.ast
+            if isinstance(st, ast.Assign) and len(st.targets) == 1:
+                t, v = st.targets[0], st.value
+                if isinstance(t, ast.Tuple) and isinstance(v, ast.Tuple) and len(t.elts) == len(v.elts):
+                    snapshot = []
+                    for x in v.elts:
+                        try:
+                            snapshot.append(alg.to_poly(x, leaf))
+                        except alg.NotAlgebraic:
+                            snapshot.append(None)
+                    for tt, pv, x in zip(t.elts, snapshot, v.elts):
+                        if isinstance(tt, ast.Name):
+                            env.pop(tt.id, None)
+                            alias.pop(tt.id, None)
+                            if pv is not None:
+                                env[tt.id] = pv
+                            else:
+                                alias[tt.id] = x
+                else:
+                    assign(t, v)
+            if nid == dnode.id:
+                call = next(c for c in ast.walk(st) if isinstance(c, ast.Call) and norm(c.func) == "setattr" and len(c.args) == 3)
+                try:
+                    delivered = alg.to_poly(call.args[2], leaf)
+                except alg.NotAlgebraic:
+                    delivered = None
+                    # a method of the target's value type applied to the converted value: read through its definition in Range
+                    dv = call.args[2]
+                    while isinstance(dv, ast.Name) and dv.id in alias:
+                        dv = alias[dv.id]
+                    if isinstance(dv, ast.Call) and isinstance(dv.func, ast.Attribute) and len(dv.args) == 1 and "value_type" in canon(dv.func.value):
+                        rng = repo.cls("Range", module="rv.controller")
+                        m = rng.methods.get(dv.func.attr)
+                        body = inline.as_expression(inline.normalize(repo, rng, m)) if m is not None else None
+                        if body is not None:
+                            mp = [a.arg for a in m.args.args if a.arg != "self"]
+                            sub = inline._Rename({"self": dv.func.value, mp[0]: dv.args[0]}).visit(body) if mp else body
+                            leaves = []
+
+                            def spread(x):
+                                if isinstance(x, ast.IfExp):
+                                    spread(x.body)
+                                    spread(x.orelse)
+                                else:
+                                    leaves.append(x)
+                            spread(sub)
+                            try:
+                                vals = [alg.to_poly(x, leaf) for x in leaves]
+                                delivered = ("cases", vals, norm(dv))
+                            except alg.NotAlgebraic:
+                                delivered = None
+        if not infeasible:
+            results.append((reversed_fact, conv_args[-1] if conv_args else None, delivered))
+    where = f"{rel}:{dnode.lineno}"
+    bad_final, bad_window, bad_swap, unknown = [], [], [], []
+    seen_rev = {True: False, False: False}
+    for rev, args, delivered in results:
+        if delivered is None or not args or len(args) < 6:
+            unknown.append("delivered value / convert_value arguments not polynomial")
+            continue
+        if isinstance(delivered, tuple):
+            cases, text = delivered[1], delivered[2]
+            offs = {repr(c - alg.Poly.sym("CONV")) for c in cases}
+            if len(offs) != 1:
+                bad_final.append(f"final value = {text}: depending on the range kind this is convert_value(…) + one of {sorted(offs)}")
+                continue
+            delivered = cases[0]
+        off = delivered - alg.Poly.sym("CONV")
+        syms = list(off.symbols())
+        if not (len(syms) == 1 and syms[0].startswith("min<") and off == alg.Poly.sym(syms[0])):
+            bad_final.append(f"final value = convert_value(…) + ({off})")
+            continue
+        T = syms[0][4:-1]
+        span = alg.Poly.sym(f"max<{T}>") - alg.Poly.sym(f"min<{T}>")
+        smin, smax, dmin, dmax = args[2], args[3], args[4], args[5]
+        zero = alg.Poly.const(0)
+        srcs = [x for x in (smin - smax).symbols()]
+        if rev is None:
+            unknown.append("no test of the source window's orientation on this path")
+            continue
+        seen_rev[rev] = True
+        M = next((x[4:-1] for x in srcs if x.startswith("min<")), None)
+        if M is None:
+            unknown.append("source window not mapping.min / mapping.max")
+            continue
+        mn, mx = alg.Poly.sym(f"min<{M}>"), alg.Poly.sym(f"max<{M}>")
+        if {repr(dmin), repr(dmax)} != {repr(zero), repr(span)}:
+            bad_window.append(f"dmin, dmax = {dmin}, {dmax}")
+            continue
+        want = (mx, mn, span, zero) if rev else (mn, mx, zero, span)
+        if (smin, smax, dmin, dmax) != want:
+            bad_swap.append(f"{'reversed' if rev else 'forward'} window: smin, smax, dmin, dmax = {smin}, {smax}, {dmin}, {dmax}")
+    if bad_final:
+        rep.violation(f"{P}.R4", con, bad_final[0],
                       "the value delivered to a ranged target must be converted + vt.min (converted is scaled into [0, max − min]); anything "
-                      "else lands outside the declared range for targets whose minimum is not 0 (e.g. positive minima, no-offset ranges)",
-                      f"{rel}:{sets[0].lineno}")
-    src = norm(fn)
-    if "dmin,dmax=0,vt.max-vt.min" in src.replace("(", "").replace(")", "").replace(" ", ""):
+                      "else lands outside the declared range for targets whose minimum is not 0 (e.g. positive minima, no-offset ranges)", where)
+    elif not unknown:
+        rep.ok(f"{P}.R4", con, "final value = converted + vt.min", "converted ∈ [0, max − min] is re-offset by the target's minimum for every range kind")
+    if bad_window:
+        rep.violation(f"{P}.R4", con, bad_window[0], "the destination window must be [0, vt.max − vt.min]", where)
+    elif not unknown and not bad_final:
         rep.ok(f"{P}.R4", con, "dmin, dmax = 0, vt.max - vt.min", "destination window is the target's span")
-    else:
-        rep.violation(f"{P}.R4", con, "dmin, dmax", "the destination window must be [0, vt.max − vt.min]", f"{rel}:{fn.lineno}")
-    flat = src.replace("(", "").replace(")", "").replace(" ", "")
-    if "ifsmin>smax:" in flat and "smin,smax=smax,smin" in flat and "dmin,dmax=dmax,dmin" in flat:
-        rep.ok(f"{P}.R4", con, "reversed window swaps source and destination bounds together", nontrivial=False)
-    else:
-        rep.violation(f"{P}.R4", con, "if smin > smax: swap", "a reversed mapping window must swap source and destination bounds together", f"{rel}:{fn.lineno}")
+    if bad_swap:
+        rep.violation(f"{P}.R4", con, bad_swap[0], "a reversed mapping window must swap source and destination bounds together", where)
+    elif not unknown and not bad_final and not bad_window:
+        if seen_rev[True] and seen_rev[False]:
+            rep.ok(f"{P}.R4", con, "reversed window swaps source and destination bounds together", nontrivial=False)
+        else:
+            rep.violation(f"{P}.R4", con, "if smin > smax: swap", "a reversed mapping window must swap source and destination bounds together "
+                          "(no path distinguishes the reversed window)", where)
+    if unknown and not (bad_final or bad_window or bad_swap):
+        if all(u.startswith("no test") for u in unknown) and not any(r[0] is not None for r in results):
+            rep.violation(f"{P}.R4", con, "if smin > smax: swap", "a reversed mapping window must swap source and destination bounds together "
+                          "(the orientation of the source window is never tested)", where)
+        else:
+            rep.inconclusive(f"{P}.R4", con, "; ".join(sorted(set(unknown)))[:200], "delivery computation not recognised", where)
 
 
 def curve_interpolation(repo: Repo, rep, P: str):
     """convert_value interpolates linearly between curve[bucket] and curve[bucket+1]: equals b at c = 0 and a at c = 1."""
     from .. import alg
-    fn = repo.func("rv.modules.multictl", "convert_value")
+    from .. import inline
+    from ..packed import single_defs, resolve_names
+    fn0 = repo.func("rv.modules.multictl", "convert_value")
     rel = "src/python/rv/modules/multictl.py"
     con = f"{rel}:convert_value"
-    expr = None
+    # helpers that hold a stage of the conversion are read as part of convert_value; one-use locals are written out
+    fn = inline.normalize(repo, None, fn0, sf=repo.module("rv.modules.multictl"))
+    cparam = fn.args.args[-1].arg if fn.args.args else "curve"
+    for a_ in fn.args.args:
+        if a_.arg == "curve":
+            cparam = "curve"
+    defs = single_defs(fn)
+
+    def has_curve(e) -> bool:
+        return any(isinstance(x, ast.Subscript) and norm(x.value) == cparam for x in ast.walk(e))
+    cands = []
     for n in ast.walk(fn):
-        if isinstance(n, ast.If) and "curve is not None" in norm(n.test):
-            for st in n.body:
-                if isinstance(st, ast.Assign) and norm(st.targets[0]) == "value":
-                    expr = st.value
-    if expr is None:
-        rep.inconclusive(f"{P}.R5", con, "", "curve interpolation not found", f"{rel}:{fn.lineno}")
+        if isinstance(n, (ast.Assign, ast.Return)) and n.value is not None:
+            v = resolve_names(n.value, defs)
+            for c in ast.walk(v):
+                if isinstance(c, ast.Call) and norm(c.func) == "int" and len(c.args) == 1 and has_curve(c.args[0]) \
+                        and isinstance(c.args[0], ast.BinOp):
+                    cands.append((c.args[0], n))
+            if isinstance(v, ast.BinOp) and has_curve(v):
+                cands.append((v, n))
+    if not cands:
+        rep.inconclusive(f"{P}.R5", con, "", "curve interpolation not found", f"{rel}:{fn0.lineno}")
         return
-    inner = expr.args[0] if isinstance(expr, ast.Call) and norm(expr.func) == "int" and expr.args else expr
+    inner, host = cands[0]
+    weights: set = set()
+    knots: Dict[str, ast.expr] = {}
 
     def leaf(e):
-        if isinstance(e, ast.Name) and e.id in ("a", "b", "c", "start", "offset", "bucket"):
-            return alg.Rat(alg.Poly.sym(e.id))
+        if isinstance(e, ast.IfExp) and isinstance(e.body, ast.Subscript) and norm(e.body.value) == cparam and has_curve(e.orelse):
+            return leaf(e.body)              # `curve[k + 1] if k < last else curve[k]`: the last bucket repeats its left knot
+        if isinstance(e, ast.Subscript) and norm(e.value) == cparam:
+            key = "K" + str(len(knots)) if norm(e.slice) not in [norm(v) for v in knots.values()] else \
+                next(k for k, v in knots.items() if norm(v) == norm(e.slice))
+            knots[key] = e.slice
+            return alg.Rat(alg.Poly.sym(key))
+        if isinstance(e, ast.Call) and norm(e.func) == "min" and len(e.args) == 2 and any(isinstance(x, ast.Constant) and x.value in (1, 1.0) for x in e.args):
+            weights.add(norm(e))
+            return alg.Rat(alg.Poly.sym("c"))
+        if isinstance(e, ast.Call) and norm(e.func) in ("int", "float", "round"):
+            opaque.setdefault(norm(e), f"u{len(opaque)}")
+            return alg.Rat(alg.Poly.sym(opaque[norm(e)]))
+        if isinstance(e, ast.Name) and e.id not in defs:
+            return alg.Rat(alg.Poly.sym("v_" + e.id))
         return None
+    opaque: Dict[str, str] = {}
     try:
         r = alg.to_rat(inner, leaf)
-        at0 = alg.Rat(r.n.subst("c", alg.Poly.const(0)), r.d.subst("c", alg.Poly.const(0)))
-        at1 = alg.Rat(r.n.subst("c", alg.Poly.const(1)), r.d.subst("c", alg.Poly.const(1)))
-        ok = at0.equals(alg.Rat(alg.Poly.sym("b"))) and at1.equals(alg.Rat(alg.Poly.sym("a")))
-        lin = r.n.degree_in("c") <= 1 and r.d.degree_in("c") == 0
     except alg.NotAlgebraic as e:
-        rep.inconclusive(f"{P}.R5", con, norm(expr), f"not algebraic: {e}", f"{rel}:{expr.lineno}")
+        rep.inconclusive(f"{P}.R5", con, norm(inner)[:160], f"not algebraic: {e}", f"{rel}:{fn0.lineno}")
         return
+    if len(weights) != 1 or len(knots) != 2:
+        rep.inconclusive(f"{P}.R5", con, norm(inner)[:160], f"interpolation weight / knots not recognised ({len(weights)} weights, {len(knots)} knots)",
+                         f"{rel}:{fn0.lineno}")
+        return
+    # which knot is the left one: index difference must be exactly 1
+    (k1, s1), (k2, s2) = list(knots.items())
+    atoms: Dict[str, str] = {}
+
+    def ileaf(e):
+        if isinstance(e, ast.Call):
+            atoms.setdefault(norm(e), f"t{len(atoms)}")
+            return alg.Poly.sym(atoms[norm(e)])
+        if isinstance(e, ast.Name):
+            return alg.Poly.sym("v_" + e.id)
+        return None
+    try:
+        d = alg.to_poly(s2, ileaf) - alg.to_poly(s1, ileaf)
+    except alg.NotAlgebraic as e:
+        rep.inconclusive(f"{P}.R5", con, f"{norm(s1)} / {norm(s2)}", f"knot indices not comparable: {e}", f"{rel}:{fn0.lineno}")
+        return
+    if d == alg.Poly.const(1):
+        left, right = k1, k2
+    elif d == alg.Poly.const(-1):
+        left, right = k2, k1
+    else:
+        rep.violation(f"{P}.R5", con, f"{cparam}[{norm(s1)}] / {cparam}[{norm(s2)}]",
+                      "the curve is interpolated between two points that are not neighbours (index difference ≠ 1)", f"{rel}:{fn0.lineno}")
+        return
+    at0 = alg.Rat(r.n.subst("c", alg.Poly.const(0)), r.d.subst("c", alg.Poly.const(0)))
+    at1 = alg.Rat(r.n.subst("c", alg.Poly.const(1)), r.d.subst("c", alg.Poly.const(1)))
+    ok = at0.equals(alg.Rat(alg.Poly.sym(left))) and at1.equals(alg.Rat(alg.Poly.sym(right)))
+    lin = r.n.degree_in("c") <= 1 and r.d.degree_in("c") == 0
+    shown = f"c·{cparam}[k+1] + (1 − c)·{cparam}[k]" if ok and lin else norm(inner)[:200]
     if ok and lin:
-        rep.ok(f"{P}.R5", con, f"value = {norm(expr)}", "linear in c, = curve[bucket] at c = 0 and curve[bucket+1] at c = 1 (continuous, monotone for a monotone curve)")
+        rep.ok(f"{P}.R5", con, f"value = {shown}", "linear in c, = curve[bucket] at c = 0 and curve[bucket+1] at c = 1 (continuous, monotone for a monotone curve)")
     else:
-        rep.violation(f"{P}.R5", con, f"value = {norm(expr)}",
-                      f"the curve interpolation gives {at0} at c = 0 and {at1} at c = 1 instead of curve[bucket] (b) and curve[bucket+1] (a): "
+        names = {left: "b", right: "a"}
+        rep.violation(f"{P}.R5", con, f"value = {shown}",
+                      f"the curve interpolation gives {at0} at c = 0 and {at1} at c = 1 ({left} = curve[bucket] (b), {right} = curve[bucket+1] (a)) instead of "
+                      "curve[bucket] (b) and curve[bucket+1] (a): "
                       "the output jumps at every bucket boundary (not monotone, can leave the range) for any curve other than the identity",
-                      f"{rel}:{expr.lineno}")
-    src = norm(fn)
-    need = ["bucket = int(value / 128)", "b = curve[bucket]", "a = curve[bucket + 1] if bucket < 256 else b", "c = min(offset / 128, 1.0)"]
-    missing = [x for x in need if x not in src]
-    if not missing:
-        rep.ok(f"{P}.R5", con, "bucket = int(value / 128); b = curve[bucket]; a = curve[bucket + 1] (last bucket clamps); c = offset / 128", nontrivial=False)
-    else:
-        rep.info(f"{P}.R5", con, f"changed: {missing}", "bucket selection changed (not decided)")
+                      f"{rel}:{fn0.lineno}")
 
 
 # ------------------------------------------------------------------------------------ R1
